@@ -80,3 +80,21 @@ impl Report {
         );
     }
 }
+
+/// Run `f` on another thread and give up after `secs` seconds (the thread is abandoned: it is
+/// only killed when the process exits). Also returns the number of schedule_at calls it made.
+pub fn with_timeout<T: Send + 'static>(secs: u64, f: impl FnOnce() -> T + Send + 'static) -> Option<(T, u64)> {
+    let (tx, rx) = std::sync::mpsc::channel();
+
+    std::thread::Builder::new()
+        .stack_size(64 << 20)
+        .spawn(move || {
+            let _ = opening_hours::verif::take_stats();
+            let res = f();
+            let work = opening_hours::verif::take_stats().schedule_at_calls;
+            let _ = tx.send((res, work));
+        })
+        .expect("cannot spawn a thread");
+
+    rx.recv_timeout(std::time::Duration::from_secs(secs)).ok()
+}
